@@ -17,6 +17,7 @@ import (
 	"github.com/docker/docker/api/types"
 	"github.com/docker/docker/api/types/container"
 	"github.com/docker/docker/client"
+	"github.com/docker/docker/errdefs"
 )
 
 // Frame types of Docker's multiplexed stream.
@@ -71,12 +72,41 @@ type Call struct {
 // ErrInjected is the error returned by injected faults.
 var ErrInjected = errors.New("injected fault")
 
+// ErrKinds are the classes of error an injected fault can be (Daemon.ErrKind): the plain one, the
+// classes the Docker client derives from HTTP status codes, the errors of a context and of a
+// connection that went away.
+var ErrKinds = []string{"", "notfound", "conflict", "unavailable", "forbidden", "canceled", "deadline", "unexpected-eof", "closed-pipe"}
+
+func (d *Daemon) injected() error {
+	switch d.ErrKind {
+	case "notfound":
+		return errdefs.NotFound(errors.New("Error response from daemon: No such container: injected fault"))
+	case "conflict":
+		return errdefs.Conflict(errors.New("Error response from daemon: container is being removed: injected fault"))
+	case "unavailable":
+		return errdefs.Unavailable(errors.New("Error response from daemon: injected fault"))
+	case "forbidden":
+		return errdefs.Forbidden(errors.New("Error response from daemon: injected fault"))
+	case "canceled":
+		return context.Canceled
+	case "deadline":
+		return context.DeadlineExceeded
+	case "unexpected-eof":
+		return io.ErrUnexpectedEOF
+	case "closed-pipe":
+		return io.ErrClosedPipe
+	}
+	return ErrInjected
+}
+
 // Daemon is the fake daemon.
 type Daemon struct {
 	client.APIClient // nil: any other method panics, which would be a finding of its own
 
 	Containers []Container
 	ListErr    bool
+	// ErrKind is the class of every injected error (one of ErrKinds).
+	ErrKind string
 
 	// Waves gives, per ContainerList call, how many ContainerLogs calls are expected to
 	// follow concurrently; Order gives, per wave, the completion order as a permutation of
@@ -142,7 +172,7 @@ func (d *Daemon) ContainerList(_ context.Context, opts container.ListOptions) ([
 	wave := d.listCalls
 	d.listCalls++
 	if d.ListErr {
-		return nil, ErrInjected
+		return nil, d.injected()
 	}
 	if gatingOff.Load() {
 		d.wave = -1
@@ -287,11 +317,11 @@ func (d *Daemon) ContainerLogs(ctx context.Context, id string, opts container.Lo
 	}
 
 	if idx < 0 {
-		return nil, errors.New("no such container")
+		return nil, errdefs.NotFound(errors.New("Error response from daemon: No such container"))
 	}
 	c := &d.Containers[idx]
 	if c.OpenErr {
-		return nil, ErrInjected
+		return nil, d.injected()
 	}
 	d.mu.Lock()
 	d.opened++
@@ -353,7 +383,7 @@ func (r *reader) Read(p []byte) (int, error) {
 	}
 	if r.pos >= limit {
 		if r.errAt >= 0 && r.errAt <= len(r.data) && r.pos >= r.errAt {
-			return 0, ErrInjected
+			return 0, r.d.injected()
 		}
 		return 0, io.EOF
 	}
